@@ -140,8 +140,8 @@ impl Property for IterProp {
     }
     fn cases(&self, tier: Tier) -> u64 {
         match tier {
-            Tier::Quick => 120_000,
-            Tier::Thorough => 2_000_000,
+            Tier::Quick => 300_000,
+            Tier::Thorough => 3_000_000,
         }
     }
     fn floors(&self, _tier: Tier) -> Vec<(&'static str, f64)> {
@@ -356,19 +356,19 @@ impl Property for MultiProp {
     }
     fn cases(&self, tier: Tier) -> u64 {
         match (self.id, tier) {
-            ("C08", Tier::Quick) => 12_000,
-            ("C08", Tier::Thorough) => 20_000,
-            ("C09", Tier::Quick) => 60_000,
-            ("C09", Tier::Thorough) => 1_000_000,
-            (_, Tier::Quick) => 12_000,
-            (_, Tier::Thorough) => 150_000,
+            ("C08", Tier::Quick) => 4_000,
+            ("C08", Tier::Thorough) => 12_000,
+            ("C09", Tier::Quick) => 80_000,
+            ("C09", Tier::Thorough) => 1_500_000,
+            (_, Tier::Quick) => 30_000,
+            (_, Tier::Thorough) => 400_000,
         }
     }
     fn floors(&self, _tier: Tier) -> Vec<(&'static str, f64)> {
         match self.id {
-            "C08" => vec![("cum:two_real_tasks", 0.3), ("ref:proper_subset", 0.2)],
-            "C09" => vec![("reif:both_values", 0.15)],
-            _ => vec![("had_conflict", 0.1)],
+            "C08" => vec![("cum:two_real_tasks", 0.12), ("ref:proper_subset", 0.1)],
+            "C09" => vec![("reif:both_values", 0.1)],
+            _ => vec![("had_conflict", 0.05)],
         }
     }
     fn extra_coverage(&self, tier: Tier) -> Vec<(String, serde_json::Value)> {
